@@ -248,6 +248,28 @@ def run_case(case, fail, stats):
                        "flags": list(f_after), "rows": rows_of(opt)[nrows0:] if name != "clear_log" else rows_of(opt),
                        "pre": pre, "trace": list(TRACE), "nrows0": nrows0,
                        "last_within": bool(getattr(opt._err, "last_point_within_tol", False))})
+        reads = case.get("log_reads")
+        if reads and len(events) - 1 < len(reads) and reads[len(events) - 1]:
+            # the public view of the log is the recorded rows (knobs, flags, penalties, tags), whatever was read before
+            stats["public_log_reads"] = stats.get("public_log_reads", 0) + 1
+            try:
+                T = opt.log()
+                pub = {"penalty": [float(x) for x in T["penalty"]], "tag": [str(x) for x in T["tag"]],
+                       "vary_active": [str(x) for x in T["vary_active"]], "target_active": [str(x) for x in T["target_active"]],
+                       "knobs": [[float(v) for v in np.atleast_1d(r)] for r in T["vary"]] if len(T["penalty"]) else []}
+                rec = {"penalty": [float(x) for x in L["penalty"]], "tag": [str(x) for x in L["tag"]],
+                       "vary_active": [str(x) for x in L["vary_active"]], "target_active": [str(x) for x in L["target_active"]],
+                       "knobs": [[float(v) for v in r] for r in L["knobs"]]}
+                same = all(len(pub[k]) == len(rec[k]) for k in pub) and pub["tag"] == rec["tag"] and \
+                    pub["vary_active"] == rec["vary_active"] and pub["target_active"] == rec["target_active"] and \
+                    all(fbits(a) == fbits(b) or (a != a and b != b) for a, b in zip(pub["penalty"], rec["penalty"])) and \
+                    all(fbits(a) == fbits(b) for ra, rb in zip(pub["knobs"], rec["knobs"]) for a, b in zip(ra, rb))
+                if not same:
+                    fail("C15", "public-log-differs-from-recorded-rows", {"after_call": call, "log()": {k: pub[k][:6] for k in pub},
+                                                                          "recorded": {k: rec[k][:6] for k in rec}})
+            except Exception as e:
+                if nrows_of(L) > 0:
+                    fail("C15", "public-log-raises", {"after_call": call, "exc": type(e).__name__})
         stats["calls"] += 1
         stats["call:" + name] = stats.get("call:" + name, 0) + 1
         stats["exc:" + exc] = stats.get("exc:" + exc, 0) + 1
@@ -548,6 +570,12 @@ def gen_calls(rng, spec, family):
         # the knobs leave their iteration-0 values before anything is disabled: a later failing solve() has to bring
         # every knob back, the disabled ones included
         calls.append(["step", {"n": rng.randint(1, 2), "take_best": rng.random() < 0.7}])
+    if family == "c09" and nk > 1 and rng.random() < 0.2:
+        # a knob that is OFF in iteration 0 of the log (the log cleared while it was disabled) and on, and moved, when the
+        # solve fails: restoring means its value of iteration 0 as well as its flag
+        k = rng.randrange(nk)
+        calls += [["disable", {"vary": [k]}], ["clear_log", {}], ["enable", {"vary": [k]}],
+                  ["step", {"n": rng.randint(1, 2), "take_best": rng.random() < 0.5}]]
     if rng.random() < 0.3 and nk > 1:
         calls.append(["disable", {"vary": [rng.randrange(nk)]}])
     if rng.random() < 0.3 and nt > 1:
@@ -589,7 +617,18 @@ def gen_calls(rng, spec, family):
     return calls
 
 
+def gen_log_reads(rng, calls):
+    """after which calls the PUBLIC log table (opt.log()) is read: not after every call, so that a table built at one
+    length may be asked for again when the log, cleared in between, has grown back to that length"""
+    return [rng.random() < 0.5 for _ in calls]
+
+
 def fixed_cases():
+    # the public log read at 3 rows, cleared, grown back to 3 rows from other knob values, read again
+    yield {"problem": {"class": "far", "kind": "linear", "nk": 2, "A": [[1, 0.5], [0.25, 1]], "b": [3, -2],
+                        "knobs": [{"init": 0.5}, {"init": -1.0}], "targets": [{"tol": 1e-9}, {"tol": 1e-9}], "n_steps_max": 5},
+           "calls": [["step", {"n": 2, "take_best": False}], ["clear_log", {}], ["step", {"n": 2, "take_best": False}], ["reload", {"i": 0}]],
+           "log_reads": [True, False, True, True]}
     # rows logged while a knob is frozen, the knob moved later, every row reloaded at the end
     for k in (0, 1):
         yield {"problem": {"class": "far", "kind": "linear", "nk": 2, "A": [[1, 0.5], [0.25, 1]], "b": [3, -2],
@@ -647,7 +686,8 @@ def main():
         cases = list(fixed_cases()) if a.fixed else []
         for i in range(a.n):
             spec = gen_problem(rng)
-            cases.append({"problem": spec, "calls": gen_calls(rng, spec, a.family)})
+            calls = gen_calls(rng, spec, a.family)
+            cases.append({"problem": spec, "calls": calls, "log_reads": gen_log_reads(rng, calls)})
     for i, case in enumerate(cases):
         def fail(prop, kind, detail, known=None, i=i):
             failures.append({"property": prop, "kind": kind, "hist": i, "op_index": 0, "detail": detail, "known": known})
